@@ -257,4 +257,4 @@ def run(report, findings):
                 "built and every column recomputed from its label on a frame with unequal level counts",
         "samples": keys[:2] + keys[len(keys) // 2: len(keys) // 2 + 2] + keys[-2:],
         "known_failing_inputs_listed": len(known), "new_failures": bad, "skipped_no_design": skipped})
-    report.assumptions = ["labels are parsed by splitting on ':' and '|' outside brackets; level names are compared as str()"]
+    report.assumptions = list(dict.fromkeys(list(report.assumptions) + ["labels are parsed by splitting on ':' and '|' outside brackets; level names are compared as str()"]))
